@@ -50,6 +50,12 @@ def run(ctx):
     t = ctx.tier
     ctx.tlc('Flow', 'MC_C12_recv.cfg', label='receive side: conservation, batching bound, ledger agreement', timeout=1800)
     ctx.tlc('Flow', 'MC_C12_send_%s.cfg' % t, label='send side: SendSafe, overflow errors', timeout=2400)
+    # the transport's body writers and the one condition variable they sleep on: nobody with window stays asleep (Broadcast); with Signal
+    # for stream-level credit the model loses wake-ups (non-vacuity).  Bound to the code by the 'drained' rule of the transport recordings.
+    ctx.tlc('TransportWake', 'MC_C12_wake.cfg', label='transport body writers: no lost wake-up, whoever has window sends (liveness under weak fairness)', timeout=900)
+    r = ctx.tlc('TransportWake', 'MC_C12_wake_mutant.cfg', label='cond.Signal for stream-level credit: must violate NoLostWakeup', expect_ok=False, timeout=900)
+    if r['violation'] != 'invariant NoLostWakeup':
+        raise vf.Inconclusive('non-vacuity guard failed for TransportWake (%s)' % r['violation'])
     # unbounded in the numbers: Apalache discharges the same invariants as an inductive invariant for arbitrary window sizes, batching
     # threshold, increments, SETTINGS values and frame sizes (two streams), and rejects three deliberately broken models (non-vacuity)
     ctx.apalache_induction('FlowIndRecv', label='receive side, inductive for all window sizes / thresholds / frame sizes (Apalache)')
